@@ -153,7 +153,8 @@ ROUND3 += [
          "        if s.startswith(\"_\"):\n            s = s[1:] + \"_\"\n"),
     ]),
     ("label_loop_guard_lstrip", "the label loop is guarded with lstrip", [
-        (J + "models/base.py", "    while s.strip(\"_\") and not s[0].isalpha():\n", "    while s.lstrip(\"_\") and not s[0].isalpha():\n"),
+        (J + "models/base.py", "    while s.strip(\"_\") and not (s[0] != \"_\" and s[0].isidentifier()):\n",
+         "    while s.lstrip(\"_\") and not (s[0] != \"_\" and s[0].isidentifier()):\n"),
     ]),
 ]
 
